@@ -14,7 +14,9 @@ var (
 )
 
 // ContractAddr is the address of generated contract i: c0de00..00<i+1>.
-func ContractAddr(i int) [20]byte { return [20]byte{0xc0, 0xde, 18: byte((i + 1) >> 8), 19: byte(i + 1)} }
+func ContractAddr(i int) [20]byte {
+	return [20]byte{0xc0, 0xde, 18: byte((i + 1) >> 8), 19: byte(i + 1)}
+}
 
 // PrecompileAddr returns the address 0x00..<n> (n may exceed 255: 0x0100 = P256VERIFY).
 func PrecompileAddr(n int) [20]byte { return [20]byte{18: byte(n >> 8), 19: byte(n)} }
@@ -74,7 +76,7 @@ func DrawWorld(t *rapid.T, wc WorldConfig) (*World, error) {
 	if wc.MaxContracts < wc.MinContracts {
 		wc.MaxContracts = wc.MinContracts + 3
 	}
-	n := rapid.IntRange(wc.MinContracts, wc.MaxContracts).Draw(t, "ncontracts")
+	n := wc.MinContracts + Uniform(t, "ncontracts", wc.MaxContracts-wc.MinContracts+1)
 	w := &World{Fork: wc.Fork, Monotone: true, Bounded: wc.Gen.Bounded}
 	addrs := make([][20]byte, n)
 	for i := range addrs {
@@ -91,7 +93,7 @@ func DrawWorld(t *rapid.T, wc WorldConfig) (*World, error) {
 			g.CreateDepth = 2
 		}
 		c := &Contract{Addr: addrs[i]}
-		if i == 0 && !g.Bounded && !g.Monotone && wc.RawEntryPct > 0 && rapid.IntRange(0, 99).Draw(t, "raw-entry") < wc.RawEntryPct {
+		if i == 0 && !g.Bounded && !g.Monotone && wc.RawEntryPct > 0 && Uniform(t, "raw-entry", 100) < wc.RawEntryPct {
 			c.Prog = &Program{Fork: wc.Fork, Features: FRaw, Term: Block{Kind: TRawTail}}
 			c.Prog.Term.Raw = DrawRaw(t, wc.Fork, 200)
 			c.Prog.Code = c.Prog.Term.Raw
